@@ -28,9 +28,22 @@ def left_unfolding():
     return out
 
 
+def concatenation():
+    a = z3.Const("a", L.ISeq)
+    lo, mid, hi = z3.Ints("lo mid hi")
+    D = lambda l, h: L.unfold_right(a, l, h)
+    E = lambda l, h: L.empty_range(a, l, h)
+    out = []
+    # induction on hi from mid: base hi = mid
+    out.append(_check("lemma/rbag-window-concatenation/base", [lo <= mid, hi == mid, E(mid, mid)], L.concat(a, lo, mid, hi)))
+    # step: mid <= hi-1, hypothesis at hi-1
+    out.append(_check("lemma/rbag-window-concatenation/step", [lo <= mid, mid <= hi - 1, L.concat(a, lo, mid, hi - 1), D(lo, hi), D(mid, hi)], L.concat(a, lo, mid, hi)))
+    return out
+
+
 def obligations(prop):
     obs = []
-    for name, st, dt in left_unfolding():
+    for name, st, dt in left_unfolding() + concatenation():
         obs.append(Ob(id=f"{prop}/T1/{name}", tier="T1", status={"proved": PROVED, "refuted": REFUTED, "undecided": UNDECIDED}[st],
                       function="pyvc/logic.py::rbag (spec function)", solver="z3-" + z3.get_version_string(), time_s=dt,
                       detail="induction on hi-lo; used wherever `del l[0]` consumes a window from the left"))
